@@ -569,6 +569,13 @@ Proof.
     + cbn. rewrite Hk. split; reflexivity.
     + unfold chdata. cbn. rewrite Hd, app_nil_r. reflexivity.
     + intros _ x [Hx|[]]. subst x. exact Hk.
+  - (* OReplayPha *)
+    destruct (closed (io (ea s))); cbn [orb fst]; [exact H|].
+    destruct (first_ctx (au (ea s)) =? 0); cbn [fst]; [exact H|].
+    apply upd_inv; auto.
+    + cbn. repeat split; reflexivity.
+    + cbn. rewrite app_nil_r. reflexivity.
+    + intros _ x Hx. cbn [map In] in Hx. destruct Hx as [Hx|[Hx|[Hx|[]]]]; subst x; reflexivity.
 Qed.
 
 Lemma swap_inv s : Inv s -> Inv (swap s).
